@@ -10,16 +10,58 @@ import VarlinkVerif.Model.Idl
 import VarlinkVerif.Model.IdlFormat
 import VarlinkVerif.Lemmas.IdlFmtSeg
 import VarlinkVerif.Lemmas.IdlFmtSquash
+import VarlinkVerif.Lemmas.IdlWFNoEsc
 
 namespace VV
 open Idl Idl.Fmt
 
-/-- **C10 colored = plain + escapes**: for every definition whose names contain no ESC character
-    (true of every parsed definition: names are letters, digits, '_', '.', '-'), with ARBITRARY
-    documentation text (escape sequences, partial sequences and resets inside comments included)
-    and every width, removing the SGR sequences `ESC [ (digit|;)* m` from the colored top-level
-    rendering gives exactly what removing them from the plain rendering gives. -/
-theorem C10_colored_is_plain_plus_escapes (i : IDL) (h : IdlNoEsc i) (max : Nat) :
+/-- **C10 round trip**: for EVERY text `s` that `try_from` accepts (any trivia, comments, line
+    terminators, nesting) with result `i`, and EVERY width `max`, the top-level formatted text
+    `get_multiline(0, max)` is accepted again, and the definition `i'` it yields has the same
+    interface name, the same interface documentation, and — kind by kind, in the same order — the
+    same members: names, documentation, field names and types (`tList`/`mList`/`eList` are the
+    members under `typedef_keys`/`method_keys`/`error_keys`, in key order); the key lists agree. -/
+theorem C10_roundtrip (s : Input) (i : IDL) (h : tryFrom s = .ok i) (max : Nat) :
+    ∃ i', tryFrom (multiline i 0 max) = .ok i' ∧ i'.name = i.name ∧ i'.doc = i.doc ∧
+      tList i' = tList i ∧ mList i' = mList i ∧ eList i' = eList i := by
+  have hw := wf_of_tryFrom h
+  obtain ⟨h1, h2, h3, h4, h5, _⟩ := fromToken_regroup i hw
+  exact ⟨fromToken (regroup i), (roundtrip i hw max).1, h1, h2, h3, h4, h5⟩
+
+/-- **C10 idempotence**: formatting the re-parsed definition at the same width reproduces the text
+    exactly (character for character), for every accepted text and every width; hence the formatted
+    text is a fixed point of parse-then-format. -/
+theorem C10_idempotent (s : Input) (i : IDL) (h : tryFrom s = .ok i) (max : Nat) :
+    ∃ i', tryFrom (multiline i 0 max) = .ok i' ∧ multiline i' 0 max = multiline i 0 max := by
+  have hw := wf_of_tryFrom h
+  exact ⟨fromToken (regroup i), (roundtrip i hw max).1, (roundtrip i hw max).2⟩
+
+/-- the two theorems for `Display` / `to_string()` (width 80) -/
+theorem C10_display_roundtrip (s : Input) (i : IDL) (h : tryFrom s = .ok i) :
+    ∃ i', tryFrom (display i) = .ok i' ∧ display i' = display i :=
+  C10_idempotent s i h 80
+
+/-- the layout step behind the round trip: for every accepted definition and every width the
+    formatted text is a text the declarative grammar (`Gram.FileText`) derives for the definition
+    regrouped by kind (typedefs, methods, errors) -/
+theorem C10_layout (s : Input) (i : IDL) (h : tryFrom s = .ok i) (max : Nat) :
+    Gram.FileText (regroup i) (multiline i 0 max) :=
+  file_layout i (wf_of_tryFrom h) max
+
+/-- non-vacuity: an accepted text with comments, a TAB in front of a comment and interleaved kinds -/
+example : (match tryFrom "# doc\ninterface a.b\n\t# tab\nmethod M(a: int) -> ()\ntype T (x, y)".toList with
+    | .ok _ => true | _ => false) = true := by decide
+
+/-- **C10 colored = plain + escapes**: for every accepted definition, with ARBITRARY documentation
+    text (escape sequences, unfinished sequences and resets inside comments included) and every
+    width, removing the SGR sequences `ESC [ (digit|;)* m` from the colored top-level rendering
+    gives exactly what removing them from the plain rendering gives. -/
+theorem C10_colored_is_plain_plus_escapes (s : Input) (i : IDL) (h : tryFrom s = .ok i) (max : Nat) :
+    stripSGR (multilineC i 0 max) = stripSGR (multiline i 0 max) :=
+  (seg_multiline i (idlNoEsc_of_wf (wf_of_tryFrom h)) max).strip
+
+/-- the same for every definition value whose names contain no ESC character -/
+theorem C10_colored_general (i : IDL) (h : IdlNoEsc i) (max : Nat) :
     stripSGR (multilineC i 0 max) = stripSGR (multiline i 0 max) :=
   (seg_multiline i h max).strip
 
